@@ -217,6 +217,39 @@ theorem step_invS {s s' : Sys} {ev : Ev} (inv : InvS s) (hg : ∀ h, (s.handles 
       · subst hjk; simp at hb; subst hb
         cases multi <;> rfl
       · simp [hjk] at hb hgt hw; exact inv.disp j b hb hgt hw
+  | consSetFilesM k file extra =>
+    obtain ⟨c, hc, hpub, hpend, rfl⟩ := inv_consSetFilesM hs
+    have hG := (inv.consG c hc).1 hpub
+    refine ⟨inv.cfg, ?_, ?_, ?_, ?_, ?_, ?_, ?_⟩
+    · intro j
+      rcases inv.sb j with h1 | ⟨c', hc', h2, h3, h4⟩
+      · left
+        by_cases hj : j = k
+        · subst hj; simpa using h1
+        · simpa [hj] using h1
+      · right; rw [hc] at hc'; cases hc'
+        refine ⟨_, rfl, hpub, h3, ?_⟩
+        by_cases hj : j = k
+        · subst hj; simpa using h4
+        · simpa [hj] using h4
+    · intro c' hc'; cases hc'; exact ⟨fun _ => hG, fun h => by simp [hpub] at h⟩
+    · intro j hj
+      by_cases hjk : j = k
+      · subst hjk; simp at hj
+      · simp [hjk] at hj ⊢; exact inv.noneLe j hj
+    · intro c' j hc' hp _; cases hc'; cases hp
+    · intro c' j hc' hp; cases hc'; cases hp
+    · intro j hj
+      by_cases hjk : j = k
+      · subst hjk; simp at hj
+      · simp [hjk] at hj
+        obtain ⟨c', hc', hp⟩ := inv.wl j hj
+        rw [hc] at hc'; cases hc'; rw [hpend] at hp; cases hp; exact absurd rfl hjk
+    · intro j b hb hgt hw
+      by_cases hjk : j = k
+      · subst hjk; simp at hb; subst hb
+        simp [Bundle.isDisposable, LoadSt.isDisposable]
+      · simp [hjk] at hb hgt hw; exact inv.disp j b hb hgt hw
   | consPutBack k =>
     obtain ⟨c, b, hc, hpub, hpend, hf, hd, rfl⟩ := inv_consPutBack hs
     have hG := (inv.consG c hc).1 hpub
@@ -407,6 +440,12 @@ theorem step_gen_mono {s s' : Sys} {ev : Ev} (inv : InvS s) (hs : step s ev = so
       · simp [hj]
   | consSetFiles k file multi =>
     obtain ⟨c, hc, hpub, hpend, rfl⟩ := inv_consSetFiles hs
+    refine ⟨fun j => ?_, Nat.le_refl _⟩
+    by_cases hj : j = k
+    · subst hj; simp
+    · simp [hj]
+  | consSetFilesM k file extra =>
+    obtain ⟨c, hc, hpub, hpend, rfl⟩ := inv_consSetFilesM hs
     refine ⟨fun j => ?_, Nat.le_refl _⟩
     by_cases hj : j = k
     · subst hj; simp
